@@ -606,13 +606,22 @@ def _lookup_witness():
         return bool(text) and text.splitlines()[0].startswith(want)
     for hist in ([], _LOOKUP_HISTORY):
         for q, want in _LOOKUP_CASES:
-            rc, so, se, dt = run([QUERY_BIN, '--defs', _LOOKUP_DEFS] + hist + [q], timeout=30)
-            body = so.rsplit('> ' + q, 1)[1].strip() if ('> ' + q) in so else so
-            raw = None
-            for l in body.splitlines():
-                if l.startswith('RAW '):
-                    raw = l[4:]
-            if not judge(body, raw, want):
+            seq = [q]
+            for h in hist:
+                seq += [h, q]
+            rc, so, se, dt = run([QUERY_BIN, '--defs', _LOOKUP_DEFS] + seq, timeout=60)
+            blocks = [b.strip() for b in so.split('> ' + q + '\n')[1:]] if ('> ' + q) in so else [so]
+            blocks = [b.split('\n> ')[0] for b in blocks]
+            body, raw, okall = '', None, True
+            for body in blocks:
+                raw = None
+                for l in body.splitlines():
+                    if l.startswith('RAW '):
+                        raw = l[4:]
+                if not judge(body, raw, want):
+                    okall = False
+                    break
+            if not okall:
                 return {'replayer': 'lookup', 'input': {'defs': _LOOKUP_DEFS, 'history': hist, 'query': q, 'expected': want}, 'output': body,
                         'why': 'expected %r%s, got %r' % (want, (' after the queries %s' % hist) if hist else '', (body.splitlines() or [''])[0] + (' / RAW ' + raw if raw else '')),
                         'cmd': '%s --defs %r %s %r' % (QUERY_BIN, _LOOKUP_DEFS, ' '.join(repr(h) for h in hist), q)}
@@ -990,10 +999,11 @@ def _substance_witness():
     if not t.startswith('ERR'):
         return bad('molar_mass of (gold / 0)', 'an error', t, 'a substance divided by zero is not refused')
     # wrong dimensionality of the amount
-    for line in ('mass of 3 m water', 'volume of 3 s water', 'mass of 2 kg gold'):
+    for line in ('mass of 3 m water', 'volume of 3 s water', 'mass of (0 m water)', 'volume of (0 s water)', 'mass of ((3 - 3) m water)', 'mass of 2 kg gold'):
         t, v, r = q(line)
-        if line != 'mass of 2 kg gold' and not t.startswith('ERR Conformance'):
-            return bad(line, 'a conformance error', t, 'an amount of the wrong dimensionality is not refused with a conformance error')
+        zero = '(0 ' in line or '(3 - 3)' in line
+        if line != 'mass of 2 kg gold' and not (t.startswith('ERR') if zero else t.startswith('ERR Conformance')):
+            return bad(line, 'a refusal' if zero else 'a conformance error', t, 'an amount of the wrong dimensionality is not refused' + ('' if zero else ' with a conformance error'))
     # formulas: exact count-weighted sums
     mm = {}
     for sym, name in _SUBST_ELEMS.items():
@@ -1244,6 +1254,9 @@ def _loader_cases():
               'zb !\nzb !', 'zu 2 m\nzu 3 m', 'zs {\n d const v 0 kg\n}', 'zs {\n d mass 1 kg / volume 0 m^3\n}', 'zs {\n d mass 1 kg / volume 1 s\n d mass 2 kg / volume 1 s\n}']:
         c.append((t, 'any'))
         c.append((t + '\n', 'any'))
+    for t, qs in (('zfoo {\n p out 5 kg / in 0 m\n}\n', ['p of zfoo', 'p of (3 zfoo)', 'out of (2 m zfoo)']), ('zz {\n molar_mass mass 5 g / amount 0 mol\n}\n', ['molar_mass of zz', 'mass of (2 mol zz)']),
+                  ('zfoo {\n p out 0 kg / in 5 m\n}\n', ['p of zfoo', 'in of (2 kg zfoo)'])):
+        c.append((t, ('ask', qs)))
     c.append(('zgood 3 m\nzbad 2 znothing\nzalso 2 zgood\n', 'partial'))
     # a substance that fails half way must not leave its properties behind as units
     c.append(('zweight 10 m\nzpallet {\n zweight const zinv 3 m\n zheight const zinvh 2 znothing\n}\nzzdouble 2 zweight\n', 'shadow'))
@@ -1262,7 +1275,11 @@ def _loader_witness():
 
     def one(case):
         text, kind = case
-        rc, so, se = _loader_run(text, ['2 km -> m', 'zgood', 'zalso'] if kind == 'partial' else (['2 km -> m', 'zzdouble -> m', 'zweight -> m'] if kind == 'shadow' else ['2 km -> m']))
+        extra = []
+        if isinstance(kind, tuple):
+            extra = kind[1]
+            kind = 'any'
+        rc, so, se = _loader_run(text, (['2 km -> m', 'zgood', 'zalso'] if kind == 'partial' else (['2 km -> m', 'zzdouble -> m', 'zweight -> m'] if kind == 'shadow' else ['2 km -> m'])) + extra)
         first = ([l for l in so.splitlines() if l.startswith('load_definitions:')] or [''])[0]
         if rc == 124:
             return (text, 'loading does not return within 30 s')
@@ -1281,6 +1298,11 @@ def _loader_witness():
             if '20 meter' not in so or '10 meter' not in so:
                 return (text, 'a property of a rejected substance shadows the unit of the same name: %s' % one_line(so, 300))
         return None
+    for dates in ('ann\u00e9e-monthnum-fullday', 'fullyear-monthnum-fullday \u00fcber', "'lit\u00e9ral' fullyear", 'fullyear[-monthnum[-fullday]]', '[[[', ']', "'unterminated", 'x\u0301y', '\u65e5\u672c monthnum'):
+        rc, so, se, dt = run([QUERY_BIN, '--dates', dates, '#2020-01-01#', '2 km -> m'], timeout=20)
+        if rc == 124 or rc not in (0, 1) or 'PANIC' in so or '2000 meter' not in so:
+            return {'replayer': 'loader', 'input': {'date_patterns': dates, 'expected': 'the pattern file loads (or is refused) and the context still answers'}, 'output': one_line(so + se, 300),
+                    'why': 'date pattern text %r: %s' % (dates, 'loading does not return within 20 s' if rc == 124 else one_line(so + se, 200)), 'cmd': '%s --dates %r %r' % (QUERY_BIN, dates, '2 km -> m')}
     cases = _loader_cases()
     with _TPE(max_workers=12) as ex:
         for r in ex.map(one, cases):
